@@ -37,18 +37,25 @@ class Undefined(Exception):
 
 
 class Oracle:
-    def __init__(self, model, yaml, yatiml, loader_cls):
+    def __init__(self, model, yaml, yatiml, loader_cls, lazy=False):
         self.model = model
         self.yaml = yaml
         self.yatiml = yatiml
         self.by = model.by_name_spec
         self.loader_cls = loader_cls
         self.safe = yaml.constructor.SafeConstructor()
+        # lazy: a class outside the reference (custom recogniser, inherited constructor) makes a
+        # question Undefined only when the question reaches that class
+        self.outside = set()
         for c in model.spec:
             if c.get('recognize'):
-                raise Undefined('custom recogniser')
+                if not lazy:
+                    raise Undefined('custom recogniser')
+                self.outside.add(c['name'])
             if c['kind'] == 'plain' and not c.get('define_init', True):
-                raise Undefined('inherited constructor')
+                if not lazy:
+                    raise Undefined('inherited constructor')
+                self.outside.add(c['name'])
 
     # ---- the class graph ---------------------------------------------------------------------
     def registered(self, name):
@@ -99,6 +106,8 @@ class Oracle:
         raise Undefined(str(t))
 
     def candidates(self, node, name):
+        if name in self.outside:
+            raise Undefined('class outside the reference')
         found = []
         for s in self.direct_subclasses(name):
             for x in self.class_types(node, s):
@@ -125,6 +134,8 @@ class Oracle:
     def matches_class(self, node, name):
         yaml = self.yaml
         c = self.by[name]
+        if name in self.outside:
+            raise Undefined('class outside the reference')
         if c['kind'] == 'enum':
             return isinstance(node, yaml.ScalarNode) and node.tag in (CORE + 'str', CORE + 'bool')
         if c['kind'] in ('str', 'userstring', 'yatimlstring'):
